@@ -226,9 +226,9 @@ def main(argv=None):
 
     # ---- 1. known findings / fixed entries ---------------------------------
     referenced = set()
-    for e in core.load_known_findings():
-        if e['property'] != prop_id:
-            continue
+    entries = [e for e in core.load_known_findings() if e['property'] == prop_id]
+    entries.sort(key=lambda e: 0 if e['status'] == 'known' else 1)      # known findings first: they may be met by other replays
+    for e in entries:
         rpath = os.path.join(core.VERIF_DIR, e['replay'])
         referenced.add(os.path.realpath(rpath))
         rp = core.load_replay(rpath)
@@ -247,8 +247,8 @@ def main(argv=None):
                 violations.append((rp['sub'], rp['case'], out, rpath))
             else:
                 known_stale.append(e['signature'])
-        else:   # fixed: plain regression case, suppresses nothing
-            if not out.ok:
+        else:   # fixed: plain regression case, suppresses nothing (a *different*, active known finding met on the way is not its failure)
+            if not out.ok and not core.is_known(out.kind):
                 violations.append((rp['sub'], rp['case'], out, rpath))
 
     # ---- 2. committed regression replays -----------------------------------
